@@ -2,6 +2,7 @@ pub mod c01;
 pub mod c02;
 pub mod c03;
 pub mod c04;
+pub mod c05;
 pub mod c06;
 pub mod c07;
 pub mod c10;
@@ -18,6 +19,7 @@ pub fn dispatch(prop: &str, rc: &mut RunCtx) -> bool {
         "C02" => c02::run(rc),
         "C03" => c03::run(rc),
         "C04" => c04::run(rc),
+        "C05" => c05::run(rc),
         "C06" => c06::run(rc),
         "C07" => c07::run(rc),
         "C10" => c10::run(rc),
